@@ -53,12 +53,17 @@ type wfDom struct {
 type wfWant struct {
 	NProcs int `json:"nprocs"`
 	MinRom int `json:"minrom"`
+	NBonds int `json:"nbonds"` // -1: no demand
+	NSo    int `json:"nso"`    // -1: no demand
 }
 
 type wfMachine struct {
 	ID      int     `json:"id"`
 	BmRSize int     `json:"bmrsize"`
 	NProcs  int     `json:"nprocs"`
+	NBonds  int     `json:"nbonds"`
+	NSo     []int   `json:"nso"`
+	NCons   []int   `json:"ncons"`
 	Doms    []wfDom `json:"doms"`
 	Want    wfWant  `json:"want"`
 }
@@ -77,7 +82,28 @@ func bitsOf(s string) []int {
 
 // wfRecord projects an emitted machine to the record BMWellFormed judges.
 func wfRecord(id int, bm *bondmachine.Bondmachine, want wfWant) wfMachine {
-	m := wfMachine{ID: id, BmRSize: int(bm.Rsize), NProcs: len(bm.Processors), Doms: []wfDom{}, Want: want}
+	m := wfMachine{ID: id, BmRSize: int(bm.Rsize), NProcs: len(bm.Processors), Doms: []wfDom{}, Want: want, NSo: []int{}, NCons: []int{}}
+	for _, l := range bm.Links {
+		if l != -1 {
+			m.NBonds++
+		}
+	}
+	for p, d := range bm.Processors {
+		n := 0
+		if p < len(bm.Shared_links) {
+			n = len(bm.Shared_links[p])
+		}
+		m.NSo = append(m.NSo, n)
+		c := 0
+		if d < len(bm.Domains) {
+			for _, part := range strings.Split(bm.Domains[d].Shared_constraints, ",") {
+				if strings.TrimSpace(part) != "" {
+					c++
+				}
+			}
+		}
+		m.NCons = append(m.NCons, c)
+	}
 	for _, d := range bm.Domains {
 		wd := wfDom{RSize: int(d.Rsize), R: int(d.R), N: int(d.N), M: int(d.M), L: int(d.L), O: int(d.O), Mode: "ha", Ws: int(d.WordSize), Ops: []wfOp{}, Prog: [][]int{}, Data: [][]int{}}
 		if len(d.Modes) > 0 {
@@ -126,6 +152,25 @@ type shapeRow struct {
 	NOut      int      `json:"nout"`
 }
 
+func shapeWant(s shapeRow) wfWant {
+	w := wfWant{NProcs: 1, MinRom: s.MinRom, NBonds: -1, NSo: 0}
+	switch s.Kind {
+	case "pass":
+		w.NBonds = s.NPass + 1
+		if s.CpuIn {
+			w.NBonds++
+		}
+	case "so":
+		w.NProcs, _ = strconv.Atoi(s.What)
+		w.NSo = s.NPass
+		w.NBonds = 1
+		w.MinRom = 0
+	case "romscan":
+		w.NBonds = 1
+	}
+	return w
+}
+
 // shapeText prints a BasmShapes row as .basm source; want is the bond graph the source names.
 func shapeText(s shapeRow) (src string, want *topoState) {
 	var sb strings.Builder
@@ -157,6 +202,53 @@ func shapeText(s shapeRow) (src string, want *topoState) {
 		case "rset-wide-bin":
 			code[1] = "\trset r1, 0b1" + strings.Repeat("0", s.RSize)
 		}
+	}
+	if s.Kind == "romscan" {
+		// no immediates: the jumps are the widest instructions; the data lines hold several words each
+		wpl, _ := strconv.Atoi(s.What)
+		var sb2 strings.Builder
+		sb2.WriteString("%section code .romtext iomode:async\n\tentry _start\n_start:\n\tclr r1\nloop:\n\tmov r2, rom:[r1]\n\tinc r1\n\tjz r2, _start\n\tr2o r2, o0\n\tj loop\n%endsection\n%section mydata .romdata\n")
+		v := 1
+		for l := 0; l < s.NPass; l++ {
+			var ws []string
+			for k := 0; k < wpl; k++ {
+				ws = append(ws, fmt.Sprintf("0x%02x", v))
+				v++
+			}
+			fmt.Fprintf(&sb2, "\ttab%d db %s\n", l, strings.Join(ws, ", "))
+		}
+		sb2.WriteString("%endsection\n%meta cpdef cpu romcode: code, romdata: mydata, execmode: ha\n%meta ioatt out0 cp: cpu, index:0, type:output\n%meta ioatt out0 cp: bm, index:0, type:output\n")
+		fmt.Fprintf(&sb2, "%%meta bmdef global registersize:%d\n", s.RSize)
+		return sb2.String(), nil
+	}
+	if s.Kind == "so" {
+		np, _ := strconv.Atoi(s.What)
+		var sb2 strings.Builder
+		for p := 0; p < np; p++ {
+			fmt.Fprintf(&sb2, "%%section code%d .romtext iomode:sync\n\tentry _start\n_start:\n\tclr r0\nloop:\n\tinc r0\n", p)
+			for q := 0; q < s.NPass; q++ {
+				if (p+q)%2 == 0 {
+					fmt.Fprintf(&sb2, "\tr2q r0, q%d\n", q)
+				} else {
+					fmt.Fprintf(&sb2, "\tq2r r1, q%d\n", q)
+				}
+			}
+			if p == 0 {
+				sb2.WriteString("\tr2o r1, o0\n")
+			}
+			fmt.Fprintf(&sb2, "\tj loop\n%%endsection\n%%meta cpdef cpu%d romcode: code%d, execmode: ha\n", p, p)
+		}
+		for q := 0; q < s.NPass; q++ {
+			fmt.Fprintf(&sb2, "%%meta sodef queue%d constraint:queue:%d\n", q, 4+q)
+		}
+		for p := 0; p < np; p++ {
+			for q := 0; q < s.NPass; q++ {
+				fmt.Fprintf(&sb2, "%%meta soatt queue%d cp: cpu%d, index:%d\n", q, p, q)
+			}
+		}
+		sb2.WriteString("%meta ioatt out0 cp: cpu0, index:0, type:output\n%meta ioatt out0 cp: bm, index:0, type:output\n")
+		fmt.Fprintf(&sb2, "%%meta bmdef global registersize:%d\n", s.RSize)
+		return sb2.String(), nil
 	}
 	if s.CpuIn {
 		code[0] = "\ti2r r0, i0"
@@ -348,7 +440,7 @@ func runC16(r *evid.Run) {
 				rejected++
 				continue // C05 judges rejections of well-formed sources
 			}
-			emit("basm-program", src, bm, wfWant{NProcs: len(p.Progs), MinRom: a.len0}, basmWant(p, outMap), nil)
+			emit("basm-program", src, bm, wfWant{NProcs: len(p.Progs), MinRom: a.len0, NBonds: len(basmWant(p, outMap).Bonds), NSo: 0}, basmWant(p, outMap), nil)
 		}
 	}
 
@@ -372,7 +464,7 @@ func runC16(r *evid.Run) {
 				for _, g := range m.Group {
 					ng[g] = true
 				}
-				emit("fragment-graph", src, bm, wfWant{NProcs: len(ng)}, nil, m)
+				emit("fragment-graph", src, bm, wfWant{NProcs: len(ng), NBonds: -1, NSo: 0}, nil, m)
 			}
 		}
 	}
@@ -412,7 +504,7 @@ func runC16(r *evid.Run) {
 		if s.Kind != "pass" {
 			want = nil
 		}
-		emit("shape:"+s.Kind, src, bm, wfWant{NProcs: 1, MinRom: s.MinRom}, want, s)
+		emit("shape:"+s.Kind, src, bm, shapeWant(s), want, s)
 		return nil
 	})
 	if err != nil {
@@ -463,7 +555,7 @@ func runC16(r *evid.Run) {
 			}
 			bm := bj.Dejsoner()
 			bm.Init()
-			emit("bondgo-program", src, bm, wfWant{NProcs: -1}, nil, nil)
+			emit("bondgo-program", src, bm, wfWant{NProcs: -1, NBonds: -1, NSo: -1}, nil, nil)
 		}
 		os.RemoveAll(dir)
 	}
@@ -508,7 +600,7 @@ func runC16(r *evid.Run) {
 			r.Violate("ports:neuralbond", fmt.Sprintf("the machine emitted for a network (%s) has %d inputs and %d outputs, the network has %d and %d", n, bm.Inputs, bm.Outputs, n.Nin, n.Nout), ctx)
 			return nil
 		}
-		emit("neuralbond-network", src, bm, wfWant{NProcs: -1}, nil, n)
+		emit("neuralbond-network", src, bm, wfWant{NProcs: -1, NBonds: -1, NSo: -1}, nil, n)
 		return nil
 	})
 	if err != nil {
@@ -543,12 +635,32 @@ func runC16(r *evid.Run) {
 			r.Violate("unloadable:bmqsim", fmt.Sprintf("the machine emitted for a circuit cannot be loaded: %v", err), ctx)
 			return nil
 		}
-		emit("bmqsim-circuit", text, bm, wfWant{NProcs: -1}, nil, c)
+		emit("bmqsim-circuit", text, bm, wfWant{NProcs: -1, NBonds: -1, NSo: -1}, nil, c)
 		return nil
 	})
 	if err != nil {
 		r.Inconclusive("circuits: %v", err)
 		return
+	}
+	// goroutines on their own processors, linked to each other and to the outside: the ordinal of the
+	// link among main's outputs and among the worker's inputs varies
+	for mainFirst := 0; mainFirst < 2; mainFirst++ {
+		for workerExtra := 0; workerExtra < 2; workerExtra++ {
+			src := goLinked(mainFirst == 1, workerExtra == 1)
+			res := runBondgo(bin, filepath.Join(scratch, "cc"), src, 8, "", 20*time.Second)
+			if res.status != "ok" || len(res.bmJSON) == 0 {
+				r.Violate("rejected:bondgo-linked-goroutines", fmt.Sprintf("bondgo fails on two linked goroutines: %s", tailStr(res.out, 300)), map[string]interface{}{"source": src})
+				continue
+			}
+			bm, err := loadMachine(res.bmJSON)
+			if err != nil {
+				r.Violate("bondgo-json", fmt.Sprintf("bondgo emitted a machine file that cannot be loaded: %v", err), map[string]interface{}{"source": src})
+				continue
+			}
+			// bonds: in0 -> main, main -> out0, main -> worker (the link), worker -> its output, and the
+			// worker's second input when it has one
+			emit("bondgo-linked-goroutines", src, bm, wfWant{NProcs: 2, NBonds: 4 + workerExtra, NSo: -1}, nil, nil)
+		}
 	}
 	lf.Close()
 	tf.Close()
@@ -605,4 +717,33 @@ func runC16(r *evid.Run) {
 	r.Set("misfit_sources_emitted", misfitEmitted)
 	r.Set("evaluations", emitted)
 	_ = tlaval.Int
+}
+
+// goLinked is a Go source with main and a worker goroutine on their own processors, joined by a
+// bondgo link (an Output of main and an Input of the worker made with the same id).  linkFirst:
+// the link is the first of main's two outputs; workerExtra: the worker has another input before it.
+func goLinked(linkFirst, workerExtra bool) string {
+	var sb strings.Builder
+	sb.WriteString("package main\n\nimport \"bondgo\"\n\nfunc worker() {\n")
+	if workerExtra {
+		sb.WriteString("\tvar wother bondgo.Input\n")
+	}
+	sb.WriteString("\tvar win bondgo.Input\n\tvar wout bondgo.Output\n")
+	if workerExtra {
+		sb.WriteString("\twother = bondgo.Make(bondgo.Input, 9)\n")
+	}
+	sb.WriteString("\twin = bondgo.Make(bondgo.Input, 5)\n\twout = bondgo.Make(bondgo.Output, 2)\n\tfor {\n")
+	if workerExtra {
+		sb.WriteString("\t\tbondgo.IOWrite(wout, bondgo.IORead(win)+bondgo.IORead(wother))\n")
+	} else {
+		sb.WriteString("\t\tbondgo.IOWrite(wout, bondgo.IORead(win)+1)\n")
+	}
+	sb.WriteString("\t}\n}\n\nfunc main() {\n\tvar in0 bondgo.Input\n")
+	if linkFirst {
+		sb.WriteString("\tvar link bondgo.Output\n\tvar out0 bondgo.Output\n\tin0 = bondgo.Make(bondgo.Input, 3)\n\tlink = bondgo.Make(bondgo.Output, 5)\n\tout0 = bondgo.Make(bondgo.Output, 1)\n")
+	} else {
+		sb.WriteString("\tvar out0 bondgo.Output\n\tvar link bondgo.Output\n\tin0 = bondgo.Make(bondgo.Input, 3)\n\tout0 = bondgo.Make(bondgo.Output, 1)\n\tlink = bondgo.Make(bondgo.Output, 5)\n")
+	}
+	sb.WriteString("\tgo worker()\n\tfor {\n\t\tbondgo.IOWrite(out0, bondgo.IORead(in0))\n\t\tbondgo.IOWrite(link, bondgo.IORead(in0))\n\t}\n}\n")
+	return sb.String()
 }
